@@ -127,6 +127,27 @@ def api_statements(rep):
         add(f"auto a = meters_pt({v(1)}); auto b = meters_pt({oval}); out((int)(a < b)); out((int)(a <= b)); out((int)(a > b)); out((int)(a >= b)); out((int)(a == b)); out((int)(a != b)); out((int)(b < a)); out((int)(b >= a));")
         add(f"auto a = meters({v(3)}); auto b = centi(meters)({oval}); out((int)(a < b)); out((int)(a >= b)); out((int)(b == a)); auto s = a + b; out(s.in(decltype(s)::unit)); auto d = b - a; out(d.in(decltype(d)::unit));")
         add(f"auto a = meters_pt({v(3)}); auto b = centi(meters_pt)({oval}); out((int)(a < b)); out((int)(a >= b)); out((int)(b == a)); auto d = b - a; out(d.in(decltype(d)::unit)); auto m = min(a, b); out(m.in(decltype(m)::unit));")
+    # explicit-rep forms with a target rep other than the operand's rep: every <T> entry point, for quantities, points and constants
+    # (casts, braces and conversions inside these are where compilers disagree about narrowing)
+    targets = [("int", "int"), ("double", "double"), ("float", "float"), ("long long", "long long"), ("short", "short"), ("unsigned", "unsigned"), ("signed char", "signed char")]
+    for tname, T in targets:
+        if T == rep or (T == "int" and rep == "int32_t"):
+            continue
+        small = T in ("short", "signed char")  # (keep every value inside the target rep: an out-of-range floating cast in the *program* would be its own UB)
+        add(f"auto q = meters({v(1)}); out(q.as<{T}>(meters).in(meters)); out(q.in<{T}>(meters)); out(q.coerce_as<{T}>(centi(meters)).in(centi(meters))); out(q.coerce_in<{T}>(kilo(meters)));")
+        add(f"auto q = rep_cast<{T}>(meters({v(5)})); out(q.in(meters)); auto p = rep_cast<{T}>(meters_pt({v(5)})); out(p.in(meters_pt));")
+        add(f"auto p = meters_pt({v(1)}); out(p.coerce_as<{T}>(centi(meters_pt)).in(centi(meters_pt))); out(p.coerce_in<{T}>(kilo(meters_pt))); out(p.as<{T}>(meters_pt).in(meters_pt));")
+        add(f"auto q = centi(meters)({v(120)}); out(round_as<{T}>(meters, q).in(meters)); out(round_in<{T}>(meters, q)); out(floor_as<{T}>(meters, q).in(meters)); out(floor_in<{T}>(meters, q)); out(ceil_as<{T}>(meters, q).in(meters)); out(ceil_in<{T}>(meters, q));")
+        add(f"auto p = celsius_pt({v(20)}); out(ceil_in<{T}>(fahrenheit_pt, p)); out(round_in<{T}>(celsius_pt, p));")
+        if not small:
+            add(f"auto p = celsius_pt({v(20)}); out(round_as<{T}>(kelvins_pt, p).in(kelvins_pt)); out(floor_in<{T}>(kelvins_pt, p));")
+            add(f"auto q = inverse_as<{T}>(micro(seconds), hertz({v(5)})); out(q.in(micro(seconds))); out(inverse_in<{T}>(nano(seconds), hertz({v(4)})));")
+        add(f"auto q = inverse_as<{T}>(milli(seconds), (kilo(hertz) / mag<25>())({v(2)})); out(q.in(milli(seconds)));")
+        add(f"auto q = inverse_as<{T}>(seconds, hertz({v(5)})); out(q.in(seconds));")
+        add(f"out(is_conversion_lossy<{T}>(meters({v(5)}), centi(meters))); out(will_conversion_overflow<{T}>(meters({v(100)}), milli(meters))); out(will_conversion_truncate<{T}>(meters({v(100)}), kilo(meters)));")
+        add(f"out(SPEED_OF_LIGHT.as<{T}>(meters / second).in(meters / second)); out(SPEED_OF_LIGHT.in<{T}>(kilo(meters) / second)); out((int)decltype(SPEED_OF_LIGHT)::can_store_value_in<{T}>(meters / second));")
+        add(f"{T} z = ZERO; out(z); Quantity<Meters, {T}> a = ZERO; out(a.in(meters)); out(get_value<{T}>(mag<5>()));")
+        add(f"auto a = meters({v(6)}) * ({T})2; out(a.in(meters)); auto b = meters({v(6)}) / ({T})2; out(b.in(meters)); auto c = ({T})3 * meters({v(6)}); out(c.in(meters)); auto q = meters({v(6)}); q *= ({T})2; out(q.in(meters));")
     add(f"auto a = meters({v(-1)}); auto b = meters(5u); out((int)(a < b)); out((int)(b > a)); auto p = meters_pt({v(-1)}); auto q = meters_pt(5u); out((int)(p < q)); out((int)(q > p));")
     # conversion factors that are roots and irrational (evaluated by the library's own compile-time arithmetic: must not depend on
     # what a particular compiler is willing to constant-fold)
@@ -244,12 +265,16 @@ def run(chk, which="C20"):
                 else:
                     cmd2 = [comp, "-std=c++14"] + flags.split() + ["-w", "-I", core.INC] + extra.split() + ["-c", src, "-o", obj]
                 rc, so2, se2 = core.sh(cmd2, timeout=900)
+                if rc == -9:
+                    res["timeout"] = True
                 if rc != 0:
                     err = f"{mode}/{tu} does not compile: " + (se2.split("error:")[1][:250] if "error:" in se2 else se2[:250])
                     break
                 objs.append(obj)
             if err is None:
                 rc, so2, se2 = core.sh([comp] + flags.split() + objs + ["-o", exe], timeout=300)
+                if rc == -9:
+                    res["timeout"] = True
                 if rc != 0:
                     err = f"{mode}: link of two translation units failed: {se2[:300]}"
             if err is None:
@@ -269,8 +294,13 @@ def run(chk, which="C20"):
         if "error" in res:
             chk.violation(f"C20|make_single_file|{key}", msg=res["error"])
             continue
+        if res.get("timeout"):
+            chk.fail_inconclusive(f"build timed out for selection {key}")
+            continue
         if "multi_error" in res:
-            chk.fail_inconclusive(f"multi-header reference build failed for selection {key}: {res['multi_error']}")
+            # the program is generated from the selection and builds on a tree where the property holds: a two-TU program that the
+            # multi-header tree itself rejects (C++14, -O0) is a public-API program that is not accepted
+            chk.violation(f"C20|multi_header_two_tu|{key}", msg=f'two-translation-unit program against the multi-header tree (C++14) for units {sel["units"][:6]}...: {res["multi_error"]}')
             continue
         if "single_error" in res:
             chk.violation(f"C20|single_file|{key}", msg=f'single-file package for units {sel["units"][:6]}... consts {[c for c, _ in sel["consts"]][:4]} io={sel["io"]}: {res["single_error"]}')
